@@ -249,6 +249,10 @@ def semantic_sat_solve(prog):
         cases.append(([FakeF(), solver + " -v", None], {"installed": [solver]}, ("runs", table[solver], [solver, "-v"])))
         cases.append(([FakeF(), "other --flag", solver], {"installed": ["other"]}, ("runs", table[solver], ["other", "--flag"])))
         cases.append(([FakeF(), None, None], {"installed": [solver]}, ("runs", table[solver], [solver])))
+        other = [s_ for s_ in sorted(table) if table[s_] != table[solver]][0]
+        # without a command the supported solvers are tried, each through its own convention: `sameas` describes a command, there is none
+        cases.append(([FakeF(), None, other], {"installed": [solver]}, ("runs", table[solver], [solver])))
+        cases.append(([FakeF(), " ", other], {"installed": [solver]}, ("runs", table[solver], [solver])))
     for args, script, want in cases:
         sc = dict(answer, **script)
         what = "sat_solve(F, cmd=%r, sameas=%r) with %s installed" % (args[1], args[2], script.get("installed", "every solver"))
